@@ -33,8 +33,6 @@ Definition script_of (l : list (bool * option nat)) : script := map (fun p => mk
 
 Definition cause_code (c : cause) : nat := match c with CErr e => e | CNil => 0 | CParent => 1 end.
 
-Definition is_exit (p : gpc) : bool := match p with GExit _ => true | _ => false end.
-
 Definition finished (n : nat) (s : st) : nat := length (filter (fun i => is_exit (s_g s i)) (seq 0 n)).
 
 Definition observe (n : nat) (s : st) : eobs :=
